@@ -256,24 +256,45 @@ def _definite_frame_active(frame):
 
 class IoProxy(object):
     """Stands in for the ``io`` module inside pyasn1.codec.streaming so that the
-    wrapper's drop threshold (io.DEFAULT_BUFFER_SIZE) becomes a per-run knob, and so
-    that a cache drop (the wrapper building its replacement BytesIO inside the
-    markedPosition setter) can be observed together with the decoder frames that are
-    active at that moment."""
+    wrapper's drop threshold (io.DEFAULT_BUFFER_SIZE) becomes a per-run knob."""
 
     def __init__(self, real, threshold):
         self.__dict__['_real'] = real
         self.__dict__['DEFAULT_BUFFER_SIZE'] = threshold
 
     def __getattr__(self, name):
-        if name == 'BytesIO':
-            import sys
-            caller = sys._getframe(1)
-            if caller.f_code.co_name == 'markedPosition':
-                DROP_EVENTS['drops'] += 1
-                if _definite_frame_active(caller):
-                    DROP_EVENTS['inside_definite'] += 1
         return getattr(self.__dict__['_real'], name)
+
+
+def _install_mark_observer(streaming):
+    """Observe cache drops at the PUBLIC seam between decoder and wrapper: the decoder assigns
+    ``substrate.markedPosition = substrate.tell()``; a drop renumbers the positions, which shows as
+    ``tell()`` going backwards across that assignment (this renumbering is what upstream
+    testMarkedPositionResets pins, and what F6 is about).  No private name of the wrapper is involved,
+    so an internal restructuring of the wrapper leaves the observation intact."""
+    import sys
+    cls = getattr(streaming, 'CachingStreamWrapper', None)
+    prop = cls.__dict__.get('markedPosition') if cls is not None else None
+    if not isinstance(prop, property) or prop.fset is None or getattr(prop.fset, '_verif_observer', False):
+        return
+    orig = prop.fset
+
+    def fset(self, value):
+        try:
+            before = self.tell()
+        except Exception:
+            before = None
+        orig(self, value)
+        try:
+            after = self.tell()
+        except Exception:
+            after = None
+        if before is not None and after is not None and after < before:
+            DROP_EVENTS['drops'] += 1
+            if _definite_frame_active(sys._getframe(1)):
+                DROP_EVENTS['inside_definite'] += 1
+    fset._verif_observer = True
+    cls.markedPosition = property(prop.fget, fset, prop.fdel, prop.__doc__)
 
 
 def reset_drop_events():
@@ -294,6 +315,7 @@ def set_drop_threshold(threshold):
         return None
     real = prev.__dict__['_real'] if isinstance(prev, IoProxy) else prev
     streaming.io = IoProxy(real, 8192 if threshold is None else threshold)
+    _install_mark_observer(streaming)
     return prev
 
 
